@@ -1,15 +1,15 @@
 #!/bin/bash
-# usage: tools/mutant.sh <patch-file> <check-id>... : applies the patch to /repo, runs the quick checks, reverts.
+# usage: tools/mutant.sh <patch-file> <check-id>... : applies the patch to a scratch worktree of /repo (never to /repo itself),
+# runs the checks against it (VERIF_REPO) and removes the worktree. Evidence of such runs goes to .cache/alt-evidence.
 set -u
 patch=$(realpath "$1"); shift
-cd /repo || exit 3
-if ! git diff --quiet; then echo "/repo has uncommitted changes"; exit 3; fi
-trap "git -C /repo reset -q --hard HEAD; git -C /repo clean -fdq" EXIT
-git apply "$patch" 2>/dev/null || git apply -3 "$patch" || { echo "patch does not apply"; exit 3; }
-git reset -q
+wt=/tmp/mut-$$-$RANDOM
+git -C /repo worktree add -q --detach $wt HEAD || exit 3
+trap "git -C /repo worktree remove --force $wt" EXIT
+(cd $wt && (git apply "$patch" 2>/dev/null || git apply -3 "$patch")) || { echo "patch does not apply"; exit 3; }
 cd /verif
 for c in "$@"; do
-  out=$(timeout 900 bin/verif check "$c" --tier ${TIER:-quick} 2>&1); e=$?
+  out=$(VERIF_REPO=$wt timeout 1800 bin/verif check "$c" --tier ${TIER:-quick} 2>&1); e=$?
   echo "$out" | grep -E "^(violation|INFRA|verif:)" | cut -c1-400 | head -${LINES_MAX:-8}
   echo "$out" | grep -E "^(VIOLATION|KNOWN|C[0-9]+ )" | cut -c1-400
   echo "exit=$e"
